@@ -47,6 +47,7 @@ type batch struct {
 	Discovery bool       `json:"discovery"`
 	Listen    bool       `json:"listen"`
 	TimeoutMs int        `json:"timeout_ms"`
+	AnyAddr   []bool     `json:"any_addr,omitempty"` // per client: bind to 0.0.0.0 instead of 127.0.0.1 (same port)
 }
 
 var ops = []string{"GetCardByID", "GetCardByIndex", "GetEvent", "GetTimeProfile", "GetDoorControlState", "SetDoorControlState", "GetStatus", "OpenDoor", "GetTime", "PutCard", "GetListener"}
@@ -265,7 +266,11 @@ func runBatch(b batch, scale int) *rp.Fail {
 	}
 	clients := make([]uhppote.IUHPPOTE, b.Clients)
 	for i := range clients {
-		clients[i] = hook.Real(cfg)
+		cc := cfg
+		if i < len(b.AnyAddr) && b.AnyAddr[i] {
+			cc.BindIP = [4]byte{0, 0, 0, 0}
+		}
+		clients[i] = hook.Real(cc)
 	}
 	// the farm decides the delay from the request bytes: register them (requests of one batch are distinct by nonce)
 	type failure struct{ fp, msg string }
@@ -465,6 +470,9 @@ func check(b batch) *rp.Fail {
 func genBatch(t *rapid.T) batch {
 	b := batch{Clients: rapid.IntRange(1, 3).Draw(t, "clients"), FixedPort: rapid.IntRange(0, 2).Draw(t, "fixed") == 0, TimeoutMs: rapid.SampledFrom([]int{400, 600, 1000}).Draw(t, "timeout"),
 		Discovery: rapid.IntRange(0, 2).Draw(t, "discovery") == 0, Listen: rapid.IntRange(0, 2).Draw(t, "listen") == 0}
+	for i := 0; i < b.Clients; i++ {
+		b.AnyAddr = append(b.AnyAddr, rapid.IntRange(0, 2).Draw(t, "bind.any") == 0)
+	}
 	nc := rapid.IntRange(1, 4).Draw(t, "controllers")
 	for i := 0; i < nc; i++ {
 		b.Paths = append(b.Paths, rapid.IntRange(0, 2).Draw(t, "path"))
@@ -510,6 +518,34 @@ func genBatch(t *rapid.T) batch {
 
 func props() []rp.Prop {
 	return []rp.Prop{rp.P[batch]{Name: "batch", Checks: ev.Pick(120, 4800) / ev.Shards(), Gen: genBatch, Check: check}}
+}
+
+// TestAAAColdStart runs first in the process: with NO broadcast address configured, several goroutines make the
+// first broadcast-routed calls of the process at the same time (lazily initialised package state must be race-free);
+// nobody answers, the calls simply time out after 40 ms. Only the race detector judges this test.
+func TestAAAColdStart(t *testing.T) {
+	if ev.Replaying() {
+		t.Skip()
+	}
+	var wg sync.WaitGroup
+	start := make(chan struct{})
+	for w := 0; w < 8; w++ {
+		wg.Add(1)
+		go func(w int) {
+			defer wg.Done()
+			u := hook.Real(hook.ClientCfg{TimeoutMs: 40, BindIP: [4]byte{127, 0, 0, 1}})
+			<-start
+			if w%2 == 0 {
+				u.GetDevices()
+			} else {
+				u.GetTime(uint32(405419896 + w))
+			}
+			u.GetStatus(uint32(405419896 + w))
+		}(w)
+	}
+	close(start)
+	wg.Wait()
+	ev.Bulk("coldstart/first-broadcast-calls-of-the-process", 16, 16)
 }
 
 func TestC08(t *testing.T)    { rp.RunAll(t, props()...) }
